@@ -297,6 +297,10 @@ func genPath(p *PRNG, i int) string {
 	case 0:
 		return base + "/{id}"
 	case 1:
+		if p.Chance(1, 4) {
+			// two parameters that differ only in case are two parameters
+			return base + "/{id}/sub/{" + Pick(p, []string{"ID", "Id", "iD"}) + "}"
+		}
 		return base + "/{id}/sub/{subId}"
 	case 2:
 		return base + "/list"
@@ -433,6 +437,7 @@ type Layout struct {
 	BlankLines   int    // 0..2 extra blank lines between blocks
 	TrailingWs   bool
 	BodySameLine bool // put short bodies on the directive line where possible (not used for multi-line)
+	TabSep       bool // separate keyword / parameters / annotation by tabs and runs of blanks, not only by one blank
 	rng          *PRNG
 }
 
@@ -440,7 +445,7 @@ func RandomLayout(p *PRNG) *Layout {
 	return &Layout{
 		Indent: Pick(p, []int{0, 2, 2, 4, 1}), NL: Pick(p, []string{"\n", "\n", "\n", "\r\n", "\r"}),
 		ExplicitCtx: p.Intn(3), BlockAnn: p.Chance(1, 4), QuoteParams: p.Intn(3), Comments: p.Intn(2),
-		BlankLines: p.Intn(3), TrailingWs: p.Chance(1, 5), rng: p.Fork(),
+		BlankLines: p.Intn(3), TrailingWs: p.Chance(1, 5), TabSep: p.Chance(1, 4), rng: p.Fork(),
 	}
 }
 
@@ -727,23 +732,29 @@ func (r *renderer) node(n *DNode, depth int, first bool) {
 	}
 	r.lex = append(r.lex, ExpLex{"K", b.Len(), b.Len() + len(n.Keyword) - 1})
 	b.WriteString(n.Keyword)
+	sep := func() string {
+		if l.TabSep {
+			return Pick(rng, []string{" ", "\t", "\t", "  ", "\t ", " \t"})
+		}
+		return " "
+	}
 	for _, p := range n.Params {
 		q := needsQuote(p) || l.QuoteParams == 2 || (l.QuoteParams == 1 && rng.Chance(1, 2))
 		txt := p
 		if q {
 			txt = quoteParam(p)
 		}
-		b.WriteString(" ")
+		b.WriteString(sep())
 		r.lex = append(r.lex, ExpLex{"P", b.Len(), b.Len() + len(txt) - 1})
 		b.WriteString(txt)
 	}
 	if n.Ann != "" {
 		if l.BlockAnn {
-			b.WriteString(" /*")
+			b.WriteString(sep() + "/*")
 			r.lex = append(r.lex, ExpLex{"A", b.Len(), b.Len() + len(n.Ann) + 1}) // " ann " between the delimiters
 			b.WriteString(" " + n.Ann + " */")
 		} else {
-			b.WriteString(" //")
+			b.WriteString(sep() + "//")
 			start := b.Len()
 			b.WriteString(" " + n.Ann)
 			r.lex = append(r.lex, ExpLex{"A", start, b.Len() - 1})
@@ -755,7 +766,11 @@ func (r *renderer) node(n *DNode, depth int, first bool) {
 		explicit = true
 	}
 	if l.TrailingWs && !(n.Ann != "" && !l.BlockAnn) {
-		b.WriteString("  ")
+		if l.TabSep {
+			b.WriteString(Pick(rng, []string{"  ", "\t", " \t"}))
+		} else {
+			b.WriteString("  ")
+		}
 	}
 	b.WriteString(l.NL)
 	textStart := b.Len() // the first byte after the line break of the header line (since fix c002d11 also in CRLF files)
